@@ -1,4 +1,5 @@
 pub mod custom;
 pub mod doc;
 pub mod edits;
+pub mod query;
 pub mod sentence;
